@@ -50,6 +50,13 @@ def cases(tier, seed):
                 if not depth1 and tier == "quick" and cfg not in ({}, {"max_cholesky_size": 0}):
                     continue
                 out.append({"name": name, "term": term, "batch": b, "cfg": cfg})
+    # sizes at which an iterative solve with default tolerances is visibly inexact (n = 3 systems converge exactly in 3 CG steps), at the
+    # settings points where a deterministic path is mandated
+    d24 = ["Dense", {"n": 24, "m": 24, "kind": "psd_spread"}]
+    for nm, term in (("DenseSpread24", d24), ("AddedDiag24", ["AddedDiag", {}, d24, ["Diag", {"n": 24}]]), ("ConstMul24", ["ConstMul", {"c": "pos"}, d24])):
+        for b in ([], [2]):
+            for cfg in ({}, {"max_cholesky_size": 0, "fast_log_prob": False}, {"max_cholesky_size": 30, "fast_log_prob": False}):
+                out.append({"name": nm, "term": term, "batch": b, "cfg": cfg})
     return out
 
 
